@@ -163,6 +163,11 @@ pub struct C17 {
     /// adapter): when set, the run exercises that surface instead of the op tape.
     #[serde(default)]
     pub adapter: Option<adapter::AdapterRun>,
+    /// Size-boundary mode: every request declares the 1 MiB v1 ceiling as its settlement budget and
+    /// a settlement of generated length `len` carries `1_048_576 - len` bytes (so results sit in the
+    /// last few hundred bytes below the ceiling, where record framing overheads matter).
+    #[serde(default)]
+    pub huge: bool,
 }
 
 /// Adapter/scope pairs bound in the runtime-owned registry (adapter 2 is bound nowhere).
@@ -176,6 +181,13 @@ impl C17 {
     }
     pub(crate) fn budget(&self, i: usize) -> u16 {
         self.budgets.get(i).copied().unwrap_or(8).max(1)
+    }
+    pub(crate) fn budget_bytes(&self, i: usize) -> u64 {
+        if self.huge {
+            1_048_576
+        } else {
+            u64::from(self.budget(i))
+        }
     }
     pub(crate) fn scope(&self, i: usize) -> u8 {
         self.scope_of.get(i).copied().unwrap_or(0) % 2
@@ -472,13 +484,15 @@ impl Scenario for C17 {
         let surface = if rng.chance(1, 4) { Surface::Filesystem } else { Surface::Memory };
         // drawn last so that the rest of the scenario is unchanged by this choice
         let adapter = if rng.chance(1, 12) { Some(adapter::generate(rng)) } else { None };
-        C17 { n_ids: n as u8, budgets, scope_of, ops, faults, new_epoch_on_crash, surface, avoid_torn_direct: false, adapter }
+        let huge = adapter.is_none() && surface == Surface::Filesystem && rng.chance(1, 10);
+        C17 { n_ids: n as u8, budgets, scope_of, ops, faults, new_epoch_on_crash, surface, avoid_torn_direct: false, adapter, huge }
     }
 
     fn execute(&self, ctx: &mut RunCtx) -> Outcome {
         if let Some(a) = &self.adapter {
             return adapter::run(a, ctx);
         }
+        driver::HUGE.with(|h| h.set(self.huge));
         match self.surface {
             Surface::Memory => {
                 let mut store = store::SimWalStore::new();
